@@ -16,9 +16,19 @@ RULE = ('program = group tree (2-6 top-level groups; flat leaf groups and '
         'one level of sub-groups) of tracer equations defining different '
         'subsets of the hooks, with drawn real / start_idx / stop_idx (int, '
         'property name, constant name) / iterate,min,max / condition / pre / '
-        'post / update_nnps / several destinations and sources; data set = '
-        '1-3 arrays (ghost tail, possibly an empty source array), positions, '
-        'h, tracer values, t, dt. One compile per program, many data sets. '
+        'post / update_nnps / several destinations and sources, plus forced '
+        'shapes per shard (several converging equations on two destinations '
+        'in an iterated group; update_nnps inside an iterated group with '
+        'moves beyond a cell; iterated parent of conditional sub-groups; '
+        'loops without sources, equations with only reduce / only '
+        'py_initialize / only initialize_pair / no hook; start from a '
+        'constant, stop from a property; a plain equation list without '
+        'Group objects; empty sub-groups); data set = 1-3 arrays (ghost '
+        'tail; arrays, destinations included, may be empty, all ghosts or '
+        '1-3 particles where every index of the program stays defined; '
+        '150-260 particles in OpenMP shards), positions, h, tracer values, '
+        't, dt, optionally a second evaluation at another time. One compile '
+        'per program, many data sets. '
         'Non-trivial = program has >= 2 groups and at least one of the '
         'features {>=2 destinations in a group, sub-group, iterate with '
         'min>=1, start/stop given, real=False with ghosts present, false '
@@ -27,8 +37,14 @@ RULE = ('program = group tree (2-6 top-level groups; flat leaf groups and '
 ASSUMPTIONS = [
     'neighbour lists come from LinkedListNNPS(sort_gids=True) on both sides '
     '(C01 establishes their correctness)',
-    'serial execution (OpenMP off); particles move only in groups that '
-    'refresh neighbours',
+    'serial builds and (shards -omp) OpenMP builds with 4 or 16 threads; '
+    'particles move only in groups that refresh neighbours',
+    'a group without equations is generated only as a sub-group: at top '
+    'level the template skips such a group on purpose ("No equations in '
+    'this group"), its pre/post/update_nnps included, and the statement '
+    'speaks of groups of equations; draws asking for one are counted as '
+    'excluded:empty_top_group.  iterate on a sub-group is not generated '
+    '(the statement gives it no meaning; the template ignores it)',
     'min_iterations <= max_iterations, max_iterations >= 1 (documented '
     'preconditions)',
 ]
@@ -40,12 +56,41 @@ ESSENTIAL_LABELS = {'all': ['multi_dest', 'subgroup', 'iterate_min>=1',
                             'hook:py_initialize', 'pre_post',
                             'idx_by_name', 'openmp', 'periodic_ghosts',
                             'mirror_ghosts',
-                            'pair_init_mixed_sources']}
+                            'pair_init_mixed_sources',
+                            # coverage audit
+                            'hook:no_source_loop', 'hook:only_reduce',
+                            'hook:none', 'sources_without_loop',
+                            'converged_multi', 'converged_multi_dest',
+                            'converged_multi_subgroup', 'parent_iterate',
+                            'sub_cond_in_iterated_parent',
+                            'iter_update_nnps', 'idx_start_constant',
+                            'idx_stop_property', 'real_false_with_stop',
+                            'flat_list', 'large_arrays', 'second_call',
+                            'sub_real_false', 'sub_start_stop',
+                            'ghost_only_dest', 'tiny_dest',
+                            'py_initialize_no_real',
+                            'iter_hit_max', 'iter_converged_early']}
 SHARD_TIMEOUT = {'quick': 1500, 'thorough': 6 * 3600}
 
 CLASSES = ['TI', 'TL', 'TIL', 'TILP', 'TA', 'TPA', 'TP', 'TR', 'TLR', 'TPY',
-           'TT']
-NEEDS_SOURCE = {'TL', 'TIL', 'TILP', 'TA', 'TPA', 'TLR'}
+           'TT', 'TLN', 'TRO', 'TPYO', 'TPO', 'TN', 'TC']
+NEEDS_SOURCE = {'TL', 'TIL', 'TILP', 'TA', 'TPA', 'TLR', 'TPO'}
+# classes whose converged() is not the inherited "always converged"
+CONVERGING = ('TR', 'TLR', 'TRO', 'TC')
+# hooks per class (for the labels)
+HOOKS = {'TI': ['initialize'], 'TL': ['loop'],
+         'TIL': ['initialize', 'loop'],
+         'TILP': ['initialize', 'loop', 'post_loop'], 'TA': ['loop_all'],
+         'TPA': ['initialize_pair', 'loop_all', 'loop'], 'TP': ['post_loop'],
+         'TR': ['initialize', 'reduce'],
+         'TLR': ['loop', 'post_loop', 'reduce'],
+         'TPY': ['py_initialize', 'initialize'], 'TT': ['initialize'],
+         'TLN': ['loop'], 'TRO': ['reduce'], 'TPYO': ['py_initialize'],
+         'TPO': ['initialize_pair'], 'TN': [], 'TC': [],
+         'TNudge': ['post_loop'], 'TNudgeBig': ['post_loop']}
+# forced shapes, one set per shard (see plan()); every quick run has all
+FORCES = ['conv_multi', 'iter_nnps', 'parent_iter', 'nosrc', 'named_idx',
+          'flat']
 KERNELS = ['CubicSpline', 'QuinticSpline', 'WendlandQuintic', 'Gaussian']
 
 
@@ -65,14 +110,21 @@ def eq_strategy(draw, names, dests):
 
 
 @st.composite
-def leaf_strategy(draw, names, dests, allow_iter=True):
+def leaf_strategy(draw, names, dests, allow_iter=True, allow_empty=False):
     ndest = draw(st.sampled_from([1, 1, 2, len(dests)]))
     ds = list(draw(st.permutations(dests)))[:max(1, min(ndest, len(dests)))]
     eqs = draw(st.lists(eq_strategy(names, ds), min_size=1, max_size=5))
+    # a group without equations: as a sub-group it still runs its pre / post
+    # / update_nnps.  At top level the generated code drops the whole group
+    # (finding C03-empty-top-group, see the audit report): not generated,
+    # the draws that asked for it are counted
+    empty = draw(st.integers(0, 9)) == 0
     g = dict(kind='leaf', eqs=eqs,
              real=draw(st.sampled_from([True, True, False])),
-             start=draw(st.sampled_from([0, 0, 0, 1, 2, 'istart'])),
-             stop=draw(st.sampled_from([None, None, None, 3, 4, 'nstop'])),
+             start=draw(st.sampled_from([0, 0, 0, 0, 1, 2, 'istart',
+                                         'cstart'])),
+             stop=draw(st.sampled_from([None, None, None, None, 3, 4,
+                                        'nstop', 'pstop'])),
              cond=draw(st.sampled_from([None, None, None, 'true', 'false',
                                         't>0.5'])),
              pre=draw(st.booleans()), post=draw(st.booleans()),
@@ -83,32 +135,141 @@ def leaf_strategy(draw, names, dests, allow_iter=True):
         g['min_it'] = draw(st.integers(0, 3))
         g['max_it'] = draw(st.integers(max(1, g['min_it']), 5))
         # an iterated group needs an equation that can report convergence
-        if not any(e['cls'] in ('TR', 'TLR') for e in eqs):
+        if not any(e['cls'] in CONVERGING for e in eqs):
             d = eqs[0]['dest']
             eqs.append(dict(cls='TR', dest=d, sources=None,
                             k=draw(st.integers(1, 9))))
     if g['update_nnps'] and draw(st.booleans()):
         d = eqs[0]['dest']
         eqs.append(dict(cls='TNudge', dest=d, sources=None, k=1))
+    if empty:
+        if allow_empty and not g['iterate']:
+            g['eqs'] = []
+        else:
+            g['excluded_empty_top'] = True
     return g
 
 
+def _eq(cls, dest, sources=None, k=1):
+    return dict(cls=cls, dest=dest, sources=sources, k=k)
+
+
+def _leaf(eqs, **kw):
+    g = dict(kind='leaf', eqs=eqs, real=True, start=0, stop=None, cond=None,
+             pre=False, post=False, update_nnps=False, iterate=False,
+             min_it=0, max_it=1)
+    g.update(kw)
+    return g
+
+
+def forced_groups(draw, what, names, dests):
+    """Shapes the random draw reaches rarely or never; -> list of groups."""
+    K = st.integers(1, 9)
+    d0, d1 = dests[0], dests[-1]
+    if what == 'conv_multi':
+        # converged() of several equations on (if possible) two destinations
+        # is aggregated without short circuit; TC converges after a number
+        # of calls, TN/TI use the inherited converged()
+        eqs = [_eq('TR', d0, None, draw(K)),
+               _eq('TLR', d1, list(names), draw(K)),
+               _eq('TC', d0, None, draw(st.integers(1, 3))),
+               _eq('TRO', d1, None, draw(K)),
+               _eq('TI', d1, None, draw(K))]
+        eqs = list(draw(st.permutations(eqs)))
+        mn = draw(st.integers(0, 3))
+        return [_leaf(eqs, iterate=True, min_it=mn,
+                      max_it=draw(st.integers(max(2, mn), 5)),
+                      cond=draw(st.sampled_from([None, None, 'true',
+                                                 't>0.5'])),
+                      pre=draw(st.booleans()), post=draw(st.booleans()))]
+    if what == 'iter_nnps':
+        # the neighbours are refreshed inside every pass of an iterated
+        # group whose equations move the particles and read the lists
+        mn = draw(st.integers(1, 2))
+        it = _leaf([_eq(draw(st.sampled_from(['TL', 'TA'])), d0,
+                        list(names), draw(K)),
+                    _eq('TNudgeBig', d0, None, 1),
+                    _eq('TR', d0, None, draw(K))],
+                   iterate=True, min_it=mn,
+                   max_it=draw(st.integers(2, 4)), update_nnps=True)
+        dep = _leaf([_eq('TL', d0, list(names), draw(K))])
+        return [it, dep]
+    if what == 'parent_iter':
+        # iterated parent: converged() of the equations of every sub-group,
+        # a sub-group with its own condition / real flag / index range
+        subs = [_leaf([_eq('TI', d0, None, draw(K)),
+                       _eq('TR', d0, None, draw(K))],
+                      cond=draw(st.sampled_from([None, 't>0.5', 'false']))),
+                _leaf([_eq('TL', d1, list(names), draw(K)),
+                       _eq('TC', d1, None, draw(st.integers(1, 3)))],
+                      pre=True, post=draw(st.booleans())),
+                _leaf([_eq('TLR', d0, list(names), draw(K))],
+                      real=False,
+                      start=draw(st.sampled_from([1, 'istart'])),
+                      stop=draw(st.sampled_from([None, 'nstop'])))]
+        mn = draw(st.integers(0, 2))
+        return [dict(kind='parent', subs=subs,
+                     cond=draw(st.sampled_from([None, None, 'true'])),
+                     pre=draw(st.booleans()), post=draw(st.booleans()),
+                     update_nnps=draw(st.booleans()), iterate=True,
+                     min_it=mn, max_it=draw(st.integers(max(2, mn), 4)))]
+    if what == 'nosrc':
+        src = [names[-1]]
+        return [
+            # loop of equations without sources next to a source loop
+            _leaf([_eq('TLN', d0, None, draw(K)),
+                   _eq('TL', d0, list(names), draw(K)),
+                   _eq('TLN', d0, None, draw(K)),
+                   _eq('TPYO', d0, None, draw(K)),
+                   _eq('TP', d0, None, draw(K))],
+                  real=draw(st.booleans())),
+            # only reduce; no hook at all (pre/post still run); only
+            # initialize_pair / only py_initialize
+            _leaf([_eq('TRO', d1, None, draw(K))]),
+            _leaf([_eq('TN', d0, None, draw(K))], pre=True, post=True),
+            _leaf([_eq('TPO', d1, src, draw(K)),
+                   _eq('TPYO', d1, None, draw(K))]),
+            _leaf([_eq('TLN', d1, None, draw(K))], stop='nstop')]
+    if what == 'named_idx':
+        # start from a constant, stop from a property; the documented
+        # "ghosts only" idiom start_idx=<number of real particles>,
+        # real=False
+        return [_leaf([_eq('TI', d0, None, draw(K)),
+                       _eq('TPYO', d0, None, draw(K)),
+                       _eq('TL', d0, list(names), draw(K))],
+                      start='cstart', stop='pstop'),
+                _leaf([_eq('TIL', d1, list(names), draw(K)),
+                       _eq('TPY', d1, None, draw(K))],
+                      real=False, start='istart')]
+    raise ValueError(what)
+
+
 @st.composite
-def program_strategy(draw, force_periodic=False):
+def program_strategy(draw, force_periodic=False, force=()):
     dim = 2 if force_periodic else draw(st.sampled_from([1, 2, 2, 3]))
     kernel = draw(st.sampled_from(KERNELS))
     if kernel == 'WendlandQuintic' and dim == 1:
         kernel = 'CubicSpline'
     narr = draw(st.sampled_from([1, 2, 2, 3]))
+    if 'conv_multi' in force or 'parent_iter' in force:
+        # these shapes are about two destinations
+        narr = max(narr, 2)
     names = ['a%d' % i for i in range(narr)]
     # the last array of a 3-array program may be empty in some data sets
     # and is therefore never a destination
     dests = names[:2] if narr == 3 else names
     groups = []
+    if 'flat' in force:
+        # a plain list of equations (no Group objects): one default group
+        eqs = draw(st.lists(eq_strategy(names, dests), min_size=3,
+                            max_size=7))
+        return dict(dim=dim, kernel=kernel, names=names, flat=True,
+                    groups=[_leaf(eqs)], periodic=False)
     for _ in range(draw(st.integers(2, 6))):
         if draw(st.integers(0, 3)) == 0:
             subs = draw(st.lists(leaf_strategy(names, dests,
-                                               allow_iter=False),
+                                               allow_iter=False,
+                                               allow_empty=True),
                                  min_size=1, max_size=3))
             for s in subs:
                 # nudges only where the neighbours are refreshed at once
@@ -125,7 +286,13 @@ def program_strategy(draw, force_periodic=False):
                 g['iterate'] = True
                 g['min_it'] = draw(st.integers(0, 2))
                 g['max_it'] = draw(st.integers(max(1, g['min_it']), 4))
-                if not any(e['cls'] in ('TR', 'TLR') for s in subs
+                for s in subs:
+                    # the convergence expression of an empty sub-group is
+                    # empty (generated code does not compile): not combined
+                    if not s['eqs']:
+                        s['eqs'] = [_eq('TI', dests[0], None,
+                                        draw(st.integers(1, 9)))]
+                if not any(e['cls'] in CONVERGING for s in subs
                            for e in s['eqs']):
                     subs[0]['eqs'].append(dict(
                         cls='TR', dest=subs[0]['eqs'][0]['dest'],
@@ -171,35 +338,117 @@ def program_strategy(draw, force_periodic=False):
             kind='leaf', eqs=eqs, real=True, start=0, stop=None, cond=None,
             pre=False, post=False, update_nnps=False, iterate=False,
             min_it=0, max_it=1))
+    for what in force:
+        fg = forced_groups(draw, what, names, dests)
+        pos = draw(st.integers(0, len(groups)))
+        groups[pos:pos] = fg
     periodic = force_periodic or (dim == 2 and
                                   draw(st.integers(0, 2)) == 0)
     if periodic is True and not force_periodic:
         # kind of domain: periodic box, mirror walls, periodic x + mirror y
         periodic = draw(st.sampled_from([True, True, 'mirror', 'mixed']))
+    if periodic in ('mirror', 'mixed'):
+        # between mirror walls particles stay inside the box: small moves
+        for g in groups:
+            for l in (g['subs'] if g['kind'] == 'parent' else [g]):
+                for e in l['eqs']:
+                    if e['cls'] == 'TNudgeBig':
+                        e['cls'] = 'TNudge'
     return dict(dim=dim, kernel=kernel, names=names, groups=groups,
                 periodic=periodic)
 
 
+def all_leaves(prog):
+    for g in prog['groups']:
+        if g['kind'] == 'parent':
+            for s_ in g['subs']:
+                yield s_
+        else:
+            yield g
+
+
+def size_limits(prog):
+    """-> {array: (smallest defined size, may be empty)}.  An integer
+    stop_idx beyond the array, a property-named index on an empty array
+    (there is no first element) and element 0 of an empty array have no
+    defined meaning; sizes are constructed inside the defined range."""
+    lim = dict((nm, [0, True, True]) for nm in prog['names'])
+    for l in all_leaves(prog):
+        for e in l['eqs']:
+            d = lim[e['dest']]
+            if isinstance(l['stop'], int):
+                d[0] = max(d[0], l['stop'])
+            if l['start'] in ('istart', 'pstop') or \
+                    l['stop'] in ('istart', 'pstop'):
+                d[0] = max(d[0], 1)
+                d[1] = False
+            if e['cls'] == 'TLR':
+                # reduce takes the maximum of a property over the real
+                # particles: there must be one
+                d[0] = max(d[0], 1)
+                d[1] = False
+                d[2] = False
+            if e['cls'] == 'TPA':
+                for s_ in e['sources'] or ():
+                    lim[s_][0] = max(lim[s_][0], 1)
+                    lim[s_][1] = False
+    return lim
+
+
 @st.composite
-def data_strategy(draw, prog):
+def data_strategy(draw, prog, big=False):
     dim = prog['dim']
     names = prog['names']
     per = prog.get('periodic', False)
+    # OpenMP shards: some data sets are large enough for every thread to get
+    # destination particles (the default schedule hands out chunks of 64)
+    big = big and not per and draw(st.booleans())
     # periodic programs: box [0, 4)^2, ghosts are created by the domain
     # manager at every update_domain (update_nnps), none are static
     L = 4.0 if per else draw(st.sampled_from([1.0, 1.5, 2.5]))
+    if big:
+        L = {1: 24.0, 2: 8.0, 3: 4.0}[dim]
+    lim = size_limits(prog)
+    kinds = []
+    for i, nm in enumerate(names):
+        lo, may_empty, may_ghost_only = lim[nm]
+        ks = ['normal'] * 5
+        if not big and (i > 0 or len(names) > 1):
+            if may_empty:
+                ks += ['empty', 'empty'] if len(names) == 3 and i == 2 \
+                    else ['empty']
+            if lo <= 3:
+                ks += ['tiny']
+            if not per and may_ghost_only:
+                ks += ['ghost_only']
+        kinds.append(draw(st.sampled_from(ks)))
+    if all(k in ('empty', 'tiny') for k in kinds):
+        # the neighbour search needs a few particles somewhere
+        kinds[0] = 'normal'
     arrays = []
     for i, nm in enumerate(names):
-        if len(names) == 3 and i == 2:
-            n = draw(st.sampled_from([0, 0, 1, 3, 6]))
+        lo = lim[nm][0]
+        kind = kinds[i]
+        if big and i == 0:
+            n = draw(st.integers(150, 260))
+        elif kind == 'empty':
+            n = 0
+        elif kind == 'tiny':
+            n = draw(st.integers(max(lo, 1), 3))
         else:
-            n = draw(st.integers(4, 12))
-        nghost = draw(st.integers(0, max(0, n - 4))) if n > 4 and \
-            draw(st.booleans()) and not per else 0
+            n = draw(st.integers(max(4, lo), 12))
+        if kind == 'ghost_only':
+            nghost = n
+        elif big and i == 0:
+            nghost = draw(st.integers(0, 70))
+        else:
+            nghost = draw(st.integers(0, max(0, n - 4))) if n > 4 and \
+                draw(st.booleans()) and not per else 0
+        grid = 1023 if big else 63
         coords = []
         for a in range(3):
             if a < dim:
-                coords.append([draw(st.integers(0, 63)) / 64.0 * L
+                coords.append([draw(st.integers(0, grid)) / (grid + 1.0) * L
                                for _ in range(n)])
             else:
                 coords.append([0.0] * n)
@@ -210,7 +459,7 @@ def data_strategy(draw, prog):
               for _ in range(n)]
         nreal = n - nghost
         arrays.append(dict(
-            name=nm, n=n, nghost=nghost,
+            name=nm, n=n, nghost=nghost, kind=kind,
             props=dict(
                 x=dict(data=coords[0]), y=dict(data=coords[1]),
                 z=dict(data=coords[2]), h=dict(data=hs),
@@ -221,13 +470,22 @@ def data_strategy(draw, prog):
                               for _ in range(n)]),
                 w0=dict(type='long',
                         data=[draw(st.integers(0, 50)) for _ in range(n)]),
+                # the first element is the index; it is the number of real
+                # particles in some data sets (the documented "ghosts only"
+                # range with real=False)
                 istart=dict(type='int',
-                            data=[draw(st.integers(0, nreal))] +
+                            data=[draw(st.sampled_from(
+                                [nreal, draw(st.integers(0, nreal))]))] +
                             [0] * (n - 1) if n else []),
+                pstop=dict(type='int',
+                           data=[draw(st.integers(0, n))] +
+                           [0] * (n - 1) if n else []),
             ),
             constants=dict(
                 nstop=dict(type='long',
                            data=[draw(st.integers(0, n))]),
+                cstart=dict(type='long',
+                            data=[draw(st.integers(0, nreal))]),
                 cst=dict(data=[draw(st.integers(0, 5)) * 1.0]),
             )))
         if per in ('mirror', 'mixed'):
@@ -236,8 +494,14 @@ def data_strategy(draw, prog):
             for vn in ('u', 'v', 'w'):
                 arrays[-1]['props'][vn] = dict(
                     data=[draw(st.integers(-4, 4)) / 4.0 for _ in range(n)])
-    return dict(arrays=arrays, t=draw(st.integers(0, 8)) / 8.0,
+    data = dict(arrays=arrays, t=draw(st.integers(0, 8)) / 8.0,
                 dt=draw(st.integers(1, 8)) / 64.0)
+    if draw(st.integers(0, 2)) == 0:
+        # a second evaluation on the state the first one left, at another
+        # time (the evaluator object lives across calls)
+        data['t2'] = draw(st.integers(0, 8)) / 8.0
+        data['dt2'] = draw(st.integers(1, 8)) / 64.0
+    return data
 
 
 # ----------------------------------------------------------- construction
@@ -251,6 +515,9 @@ def build_groups(prog, arrays, log, tag0):
 
     def mk_eq(e):
         cls = getattr(E, e['cls'])
+        if e['cls'] == 'TNudge' and prog['dim'] == 1:
+            # particles of a 1D search stay on their line
+            cls = E.TNudgeX
         counter[0] += 1
         o = cls(dest=e['dest'], sources=e['sources'], k=e['k'],
                 tag=tag0 + counter[0])
@@ -298,6 +565,9 @@ def build_groups(prog, arrays, log, tag0):
                      start_idx=g['start'], stop_idx=g['stop'],
                      name='G' + gname)
     out = []
+    if prog.get('flat'):
+        # a plain list of equations, as the documentation's first examples
+        return [mk_eq(e) for e in prog['groups'][0]['eqs']], eq_objs
     for i, g in enumerate(prog['groups']):
         if g['kind'] == 'leaf':
             out.append(mk_leaf(g, str(i)))
@@ -316,14 +586,45 @@ def build_groups(prog, arrays, log, tag0):
 def program_features(prog):
     feats = set()
     leaves = []
+    if prog.get('flat'):
+        feats.add('flat_list')
     for gi, g in enumerate(prog['groups']):
         if g['kind'] == 'parent':
             feats.add('subgroup')
             leaves += [(gi, s) for s in g['subs']]
             top = [g]
+            if g['iterate']:
+                feats.add('parent_iterate')
+                conv = [any(e['cls'] in CONVERGING for e in s['eqs'])
+                        for s in g['subs']]
+                if sum(conv) >= 2:
+                    feats.add('converged_multi_subgroup')
+                if any(s['cond'] for s in g['subs']):
+                    feats.add('sub_cond_in_iterated_parent')
+                if g['update_nnps']:
+                    feats.add('iter_update_nnps')
+            for s in g['subs']:
+                if not s['eqs']:
+                    feats.add('empty_subgroup')
+                if not s['real']:
+                    feats.add('sub_real_false')
+                if s['start'] != 0 or s['stop'] is not None:
+                    feats.add('sub_start_stop')
         else:
             leaves.append((gi, g))
             top = [g]
+            if g.get('excluded_empty_top'):
+                feats.add('excluded:empty_top_group')
+            if g['iterate']:
+                conv = [e for e in g['eqs'] if e['cls'] in CONVERGING]
+                if len(conv) >= 2:
+                    feats.add('converged_multi')
+                if len(set(e['dest'] for e in conv)) >= 2:
+                    feats.add('converged_multi_dest')
+                if g['update_nnps']:
+                    feats.add('iter_update_nnps')
+                if g['cond']:
+                    feats.add('cond_iterate')
         for x in top:
             if x['iterate'] and x['min_it'] >= 1:
                 feats.add('iterate_min>=1')
@@ -340,6 +641,29 @@ def program_features(prog):
             feats.add('start_stop')
         if isinstance(l['start'], str) or isinstance(l['stop'], str):
             feats.add('idx_by_name')
+        if l['start'] == 'cstart':
+            feats.add('idx_start_constant')
+        if l['stop'] == 'pstop':
+            feats.add('idx_stop_property')
+        if not l['real'] and l['stop'] is not None:
+            feats.add('real_false_with_stop')
+        dl = {}
+        for e in l['eqs']:
+            dl.setdefault(e['dest'], []).append(e)
+        for d, es in dl.items():
+            hs = set(h for e in es for h in HOOKS[e['cls']])
+            if any(e['cls'] in ('TLN',) and e['sources'] is None
+                   for e in es):
+                feats.add('hook:no_source_loop')
+            if hs == {'reduce'}:
+                feats.add('hook:only_reduce')
+            if hs == {'py_initialize'}:
+                feats.add('hook:only_py_initialize')
+            if not hs:
+                feats.add('hook:none')
+            if any(e['sources'] for e in es) and not \
+                    (hs & {'loop', 'loop_all'}):
+                feats.add('sources_without_loop')
         if not l['real']:
             feats.add('real_false')
         if l['cond'] == 'false':
@@ -355,12 +679,10 @@ def program_features(prog):
         for e in l['eqs']:
             if e['sources'] and len(e['sources']) >= 2:
                 feats.add('multi_source')
-            hooks = {'TA': ['loop_all'], 'TPA': ['loop_all',
-                                                 'initialize_pair'],
-                     'TR': ['reduce'], 'TLR': ['reduce'],
-                     'TPY': ['py_initialize']}.get(e['cls'], [])
-            for h in hooks:
-                feats.add('hook:' + h)
+            for h in HOOKS[e['cls']]:
+                if h in ('loop_all', 'initialize_pair', 'reduce',
+                         'py_initialize'):
+                    feats.add('hook:' + h)
     return feats
 
 
@@ -433,6 +755,34 @@ def run_data(prog, sides, data):
     if prog.get('periodic'):
         feats.add('periodic_ghosts' if prog['periodic'] is True
                   else 'mirror_ghosts')
+    dest_names = set(e['dest'] for l in all_leaves(prog) for e in l['eqs'])
+    for a in data['arrays']:
+        if a['name'] in dest_names:
+            if a['n'] == 0:
+                feats.add('empty_dest')
+            elif a['nghost'] == a['n']:
+                feats.add('ghost_only_dest')
+            elif a['n'] <= 3:
+                feats.add('tiny_dest')
+        if a['n'] >= 150:
+            feats.add('large_arrays')
+    for l in all_leaves(prog):
+        if l['start'] == 'istart' and not l['real'] and l['stop'] is None:
+            for a in data['arrays']:
+                if a['nghost'] and a['props']['istart']['data'][0] == \
+                        a['n'] - a['nghost'] and \
+                        any(e['dest'] == a['name'] for e in l['eqs']):
+                    feats.add('ghosts_only_range')
+    for l in all_leaves(prog):
+        for e in l['eqs']:
+            if 'py_initialize' in HOOKS[e['cls']]:
+                for a in data['arrays']:
+                    if a['name'] == e['dest'] and a['nghost'] == a['n']:
+                        # py_initialize is called for a destination without
+                        # real particles too
+                        feats.add('py_initialize_no_real')
+    if 't2' in data:
+        feats.add('second_call')
     labels += sorted(feats)
     jit.load_data(c.arrays, data['arrays'])
     jit.load_data(r.arrays, data['arrays'])
@@ -444,16 +794,44 @@ def run_data(prog, sides, data):
     del r.log[:]
     E.LOGS.clear()
     r.ev.pair_calls = 0
-    t, dt = data['t'], data['dt']
-    try:
-        r.ev.compute(t, dt)
-    except RefUndefined as ex:
-        return [], labels + ['ref_undefined'], False
-    try:
-        c.ev.evaluate(t, dt)
-    except Exception as ex:
-        fails.append(Failure('AccelerationEval', 'exception', repr(ex)))
-        return fails, labels, False
+    r.ev.iterations.clear()
+    calls = [(data['t'], data['dt'])]
+    if 't2' in data:
+        calls.append((data['t2'], data['dt2']))
+    for ci, (t, dt) in enumerate(calls):
+        try:
+            r.ev.compute(t, dt)
+        except RefUndefined as ex:
+            why = ' '.join(str(ex).replace('(', ' ').split()[:3])
+            return [], labels + ['ref_undefined',
+                                 'ref_undefined:' + why], False
+        try:
+            c.ev.evaluate(t, dt)
+        except Exception as ex:
+            fails.append(Failure('AccelerationEval', 'exception', repr(ex)))
+            return fails, labels, False
+        compare_sides(c, r, fails, E, jit)
+        if fails:
+            break
+    for gi, g in enumerate(prog['groups']):
+        if g['iterate'] and not prog.get('flat'):
+            n = r.ev.iterations.get('G%d' % gi)
+            if n is None:
+                continue
+            if n == g['max_it'] and n > 1:
+                labels.append('iter_hit_max')
+            elif n < g['max_it']:
+                labels.append('iter_converged_early')
+            if n == g['min_it'] and n > 1:
+                labels.append('iter_stopped_at_min')
+    nontrivial = len(prog['groups']) >= 2 and bool(feats & {
+        'multi_dest', 'subgroup', 'iterate_min>=1', 'start_stop',
+        'real_false_ghosts', 'false_condition', 'update_nnps_then_group'}) \
+        and r.ev.pair_calls > 0
+    return fails, labels, nontrivial
+
+
+def compare_sides(c, r, fails, E, jit):
     diffs = jit.compare_arrays(r.arrays, c.arrays, bitwise=True)
     if diffs:
         d = diffs[0]
@@ -482,11 +860,6 @@ def run_data(prog, sides, data):
     if lc != lr:
         fails.append(Failure('AccelerationEval', 'py_initialize_log',
                              'reference %r, compiled %r' % (lr, lc)))
-    nontrivial = len(prog['groups']) >= 2 and bool(feats & {
-        'multi_dest', 'subgroup', 'iterate_min>=1', 'start_stop',
-        'real_false_ghosts', 'false_condition', 'update_nnps_then_group'}) \
-        and r.ev.pair_calls > 0
-    return fails, labels, nontrivial
 
 
 # ------------------------------------------------------------ entry points
@@ -497,11 +870,21 @@ def plan(ctx):
     else:
         nprog, ndata = 25, 40
         k = 16
+    # forced shapes per shard: every run has each of them serial and (all
+    # but the flat list) under OpenMP
+    force = [['conv_multi', 'named_idx'], ['nosrc'], ['iter_nnps'],
+             ['conv_multi'], ['parent_iter'], ['nosrc', 'iter_nnps'],
+             ['parent_iter'], ['nosrc'], ['flat'],
+             ['conv_multi', 'parent_iter'], ['iter_nnps', 'named_idx'],
+             ['named_idx'], ['parent_iter', 'nosrc'],
+             ['nosrc', 'conv_multi'], ['named_idx', 'iter_nnps'],
+             ['parent_iter', 'iter_nnps']]
     return [dict(name='prog-%02d%s' % (i, '-omp' if i % 4 == 3 else ''),
                  nprog=nprog, ndata=ndata,
                  periodic=[True, 'mirror', 'mixed'][(i // 5) % 3]
                  if i % 5 == 1 else False,
-                 omp=[0, 0, 0, 4][i % 4] if i % 8 != 7 else 16)
+                 omp=[0, 0, 0, 4][i % 4] if i % 8 != 7 else 16,
+                 force=force[i % len(force)])
             for i in range(k)]
 
 
@@ -524,7 +907,8 @@ def run_shard(spec, ctx):
               suppress_health_check=list(HealthCheck))
     @given(st.data())
     def outer(dat):
-        prog = dat.draw(program_strategy(spec.get('periodic') or False))
+        prog = dat.draw(program_strategy(spec.get('periodic') or False,
+                                         tuple(spec.get('force') or ())))
         first = dat.draw(data_strategy(prog))
         calls[0] += 1
         if calls[0] == 1:
@@ -555,7 +939,7 @@ def run_shard(spec, ctx):
                 f.klass.setdefault('feature', '')
             return Outcome(fails, labels, nt)
         inner = Stats()
-        search(data_strategy(prog), execute,
+        search(data_strategy(prog, big=bool(spec.get('omp'))), execute,
                derive_seed(ctx.seed, 'C03d', spec['name'],
                            stats.extra['programs']),
                spec['ndata'], inner, shrink=True)
